@@ -9,6 +9,7 @@ The shared cache is wrapped by an Interposer that calls a scheduler before every
 Every evaluation must return its stand-alone (NoCache) outcome and afterwards every cache.get(key) must be None or equal
 to the reference value of the key (inspection of C05)."""
 import builtins
+import os
 import threading
 import time
 
@@ -19,11 +20,6 @@ from replay import c05
 
 CONTRACT = "interleaved evaluations return their stand-alone outcomes; at quiescence cache.get(key) is None or == Sem(key)"
 FIELDS = ("value", "volatile", "vars", "filename", "extension")
-
-K_FILEWINDOW = ("FileCache.store (cache.py:588-606; also XOR/Fernet/CacheProxy(FileCache)/combinations) writes the metadata file with status 'ready' first and then "
-                "opens the data file for writing: between open(path,'wb') (file created/truncated, still empty) and f.write() a concurrent "
-                "FileCache.get(key) finds ready metadata and an existing data file and serves its (empty) content - for a text result the empty "
-                "string '' is returned as a finished result")
 
 PAIRS = [
     ("hello/cat-a/cat-b", "hello/cat-a/cat-c"),
@@ -119,9 +115,17 @@ class FileHooks:
             return Proxy(builtins.open(path, mode, *a, **k), path)
         LCACHE.open = hooked_open
         LSTORE.open = hooked_open
+        # the rename that publishes a completely written temporary file is a scheduling point too
+        self._real_replace = real_replace = os.replace
+
+        def hooked_replace(src, dst, *a, **k):
+            ip._pre("file.replace", str(dst))
+            return real_replace(src, dst, *a, **k)
+        os.replace = hooked_replace
         return self
 
     def __exit__(self, *a):
+        os.replace = self._real_replace
         for mod in (LCACHE, LSTORE):
             if "open" in mod.__dict__:
                 del mod.__dict__["open"]
@@ -177,17 +181,13 @@ def judge(col, kind, c, runs, schedule, file_level):
         d = M.outcome_diff(exp, o, FIELDS)
         if d:
             bad = True
-            known = K_FILEWINDOW if (file_level and "File" in kind and served_empty_prefix(q, o)) else None
-            if file_level and "StoreCache(FileStore" in kind and not o.ok and "KeyNotFoundStoreException" in str(o.failure):
-                known = K_STOREWINDOW
-            col.add(CONTRACT, "Context.evaluate / %s" % kind, known=known, query=q, cache=kind, schedule=schedule, granularity="file open/write" if file_level else "cache operation",
+            col.add(CONTRACT, "Context.evaluate / %s" % kind, query=q, cache=kind, schedule=schedule, granularity="file open/write" if file_level else "cache operation",
                     problem="an interleaved evaluation returned something else than its stand-alone outcome",
                     differences=[dict(field=a, expected=b, observed=x) for a, b, x in d])
     probs = c05.inspect(c, [q for q, _o in runs])
     for key, problem, got, ref in probs:
         bad = True
-        known = K_FILEWINDOW if (file_level and "File" in kind and served_empty_prefix(key, None, got)) else None
-        col.add(CONTRACT, "cache.get / %s" % kind, known=known, query=key, cache=kind, schedule=schedule, granularity="file open/write" if file_level else "cache operation",
+        col.add(CONTRACT, "cache.get / %s" % kind, query=key, cache=kind, schedule=schedule, granularity="file open/write" if file_level else "cache operation",
                 problem="at quiescence: " + problem, served=got, expected=None if ref is None else ref.brief())
     return bad
 
@@ -256,8 +256,9 @@ def inline_scenario(col, kind, factory, qa, qb, k, file_level, qc=None, j=None):
 class TokenScheduler:
     """A starts; at A's k-th operation the token goes to B; at B's j-th operation back to A; whoever finishes hands over."""
 
-    def __init__(self, k, j):
+    def __init__(self, k, j, after_a=None):
         self.k, self.j = k, j
+        self.after_a = after_a      # runs (unscheduled) when A has finished, while B is still stopped at its operation j
         self.cv = threading.Condition()
         self.turn = "A"
         self.count = {"A": 0, "B": 0}
@@ -299,6 +300,9 @@ class TokenScheduler:
         try:
             self.wait_turn(r)
             out[r] = fn()
+            if r == "A" and self.after_a is not None and not self.done["B"]:
+                self.local.role = None
+                out["C"] = self.after_a()
         except BaseException as e:       # noqa
             out[r] = e
         finally:
@@ -308,10 +312,10 @@ class TokenScheduler:
                 self.cv.notify_all()
 
 
-def thread_scenario(col, kind, factory, qa, qb, k, j, file_level):
+def thread_scenario(col, kind, factory, qa, qb, k, j, file_level, qc=None):
     c, cleanup = M.quiet(factory)
     ip = Interposer(c)
-    sch = TokenScheduler(k, j)
+    sch = TokenScheduler(k, j, after_a=(lambda: M.run(qc, keep_global=True)) if qc is not None else None)
     ip.hook = sch.hook
     LCACHE.set_cache(ip)
     out = {}
@@ -338,6 +342,9 @@ def thread_scenario(col, kind, factory, qa, qb, k, j, file_level):
                 return True
             runs.append((q, o))
         sched = "A=%s, B=%s in two threads: A runs to its operation #%d, B to its operation #%d, A to completion, B to completion" % (qa, qb, k, j)
+        if qc is not None and isinstance(out.get("C"), M.Outcome):
+            runs.append((qc, out["C"]))
+            sched = sched.replace(", B to completion", ", then C=%s runs to completion, then B to completion" % qc)
         return judge(col, kind, c, runs, sched, file_level)
     finally:
         LCACHE.set_cache(LCACHE.NoCache())
@@ -350,11 +357,6 @@ def points(n, maxpoints):
         return list(range(1, n + 1))
     step = (n - 1) / float(maxpoints - 1)
     return sorted(set(int(round(1 + i * step)) for i in range(maxpoints)))
-
-
-K_STOREWINDOW = ("StoreCache over a FileStore: a reader that meets a metadata file which another evaluation is just writing (FileStore.store_metadata: "
-                 "open(path,'w') has truncated it, json.dump not yet done) treats it as corrupted - FileStore.get_metadata removes the key and raises "
-                 "KeyNotFoundStoreException, which StoreCache._load_metadata / get do not catch: the concurrent evaluation fails with that exception")
 
 
 def bounded(tier, seed):
@@ -411,15 +413,30 @@ def bounded(tier, seed):
                     for k in points(na, 8 if quick else 20):
                         for j in points(nb, 6 if quick else 14):
                             thread_scenario(col, kind, factory, qa, qb, k, j, file_level)
+        # ---- two writers of the SAME key and a reader: A stopped before a rename, B stopped before a write, A finishes, C reads, B finishes
+        if kind in ("FileCache", "StoreCache(FileStore)") or (not quick and file_kind and not any(x in kind for x in NOT_THREADABLE)):
+            for qa, qc in (("hello", "hello/cat-a"), ("hello/cat-a", "hello/cat-a/cat-b")):
+                qb = qa
+                count_ops(factory, qa, True)
+                reps = [i + 1 for i, nm in enumerate(LAST_OPS) if nm == "file.replace"]
+                wrs = [i + 1 for i, nm in enumerate(LAST_OPS) if nm == "file.write"]
+                if quick:
+                    reps, wrs = reps[-8:], wrs[-8:]
+                wrs = sorted(set(wrs) | set(w + 1 for w in wrs))     # B's own operation count may be shifted by one against the solo run
+                for k in reps:
+                    for j in wrs:
+                        thread_scenario(col, kind, factory, qa, qb, k, j, True, qc=qc)
+                        col.nontrivial.add((kind, qa, qb, k, j, "same-key writers"))
         standins.append(M.standin("%s: interleavings of overlapping evaluations" % kind,
                                   "%d query pairs; B atomically at %s cache operation of A%s%s" % (
                                       len(pairs), "every" if (not quick or kind in main) else "6 evenly spread",
                                       " (+ file open/write points)" if file_kind else "",
-                                      "; 3 evaluations; 2-thread (k, j) schedules with one preemption each" if kind in ("MemoryCache", "FileCache") else ""),
+                                      ("; 3 evaluations; 2-thread (k, j) schedules with one preemption each" if kind in ("MemoryCache", "FileCache") else "")
+                                      + ("; two writers of one key stopped at each (rename, write) pair with a reader in between" if kind in ("FileCache", "StoreCache(FileStore)") or (not quick and file_kind) else "")),
                                   col.evaluations - n0, False))
     return dict(evaluations=col.evaluations, distinct_nontrivial=len(col.nontrivial),
                 rule="the shared cache is wrapped so that a scheduler runs before every cache operation (for file-backed caches also before every open()/write() "
-                     "of liquer.cache / liquer.store): B (and C) run to completion inside A at each operation index k; for thread-usable kinds A and B also run "
+                     "of liquer.cache / liquer.store and every os.replace): B (and C) run to completion inside A at each operation index k; for thread-usable kinds A and B also run "
                      "in two threads with a token scheduler (A to op k, B to op j, A to end, B to end); results compared with stand-alone NoCache outcomes, "
                      "all keys inspected afterwards; sqlite caches are excluded from thread mode (connections are thread-bound); evaluations = schedules; wall %.0fs"
                      % (time.time() - t0),
